@@ -43,6 +43,7 @@ def main(argv=None):
     ap.add_argument("--evidence-dir", default=os.path.join(VERIF, "evidence"))
     a = ap.parse_args(argv)
     seed = int(os.environ.get("VERIF_SEED", "0") or 0)
+    os.environ["VERIF_TIER_EFFECTIVE"] = a.tier
     t_start = time.time()
     try:
         rc = run(a, seed, t_start)
